@@ -313,9 +313,11 @@ def lex_continue(
     # Since Numeric objects can begin with a reserved
     # character, the reserved characters may split up
     # the lexeme.
-    if (
-        char in g.numeric_start_chars
-        and Token(char + next_char, grammar=g).is_numeric()
+    if char in g.numeric_start_chars and (
+        Token(char + next_char, grammar=g).is_numeric()
+        # A real number may begin with a sign and the decimal point (+.5),
+        # which is not numeric before its first digit has been read.
+        or next_char == "."
     ):
         return True
 
